@@ -141,6 +141,8 @@ def _convertCFF2ToCFF(cff, otFont):
         mapping[name]: v for name, v in charStrings.charStrings.items()
     }
 
+    if getattr(topDict.FDSelect, "format", None) == 4:
+        topDict.FDSelect.format = 3  # format 4 exists in CFF2 only
     topDict.ROS = ("Adobe", "Identity", 0)
 
 
